@@ -200,11 +200,16 @@ type wspec struct {
 	exp uint64
 }
 
-func (r *iterRun) randWrites(n int) []wspec {
+func (r *iterRun) randWrites(n int) []wspec { return r.randWritesFrom(n, userKeys) }
+
+func (r *iterRun) randWritesFrom(n int, keys [][]byte) []wspec {
+	if n > len(keys) {
+		n = len(keys)
+	}
 	var out []wspec
 	seen := map[string]bool{}
 	for len(out) < n {
-		k := corr.Pick(r.rng, userKeys)
+		k := corr.Pick(r.rng, keys)
 		if seen[string(k)] {
 			continue
 		}
@@ -764,6 +769,59 @@ func (r *iterRun) scan(nDB, nTxn int, fixed []string) {
 
 // ---- programs ----
 
+// keyRanges are disjoint contiguous ranges of the key alphabet: commits confined to one
+// range, flushed, moved to the L6 ingest buffer and drained give one main table per range.
+var keyRanges = [][][]byte{userKeys[0:3], userKeys[3:5], userKeys[5:7]}
+
+// programRanges builds levels >= 1 with SEVERAL main tables and readers at OLD read
+// timestamps: each phase commits to the keys of one range, optionally keeps a transaction
+// begun before or after it, and settles the data (rotate, flush, move to the ingest buffer
+// of L6, drain); later phases rewrite ranges at newer versions. The scans seek (among
+// others) exactly onto every key with every kept transaction, i.e. onto the last key of a
+// main table and the first of the next one at read timestamps below their stored versions.
+func (r *iterRun) programRanges(steps, nDB, nTxn int) {
+	rng := r.rng
+	phases := 3 + steps/12
+	for ph := 0; ph < phases; ph++ {
+		keys := keyRanges[rng.Intn(len(keyRanges))]
+		if ph < len(keyRanges) {
+			keys = keyRanges[(ph+int(r.rng.Int63()%3))%len(keyRanges)]
+		}
+		if len(r.held) < 3 && rng.Intn(2) == 0 {
+			upd := rng.Intn(3) == 0
+			var ws []wspec
+			if upd {
+				ws = r.randWrites(1 + rng.Intn(2))
+			}
+			r.held = append(r.held, r.begin(upd, ws))
+		}
+		for n := 1 + rng.Intn(3); n > 0; n-- {
+			r.commit(r.randWritesFrom(1+rng.Intn(len(keys)), keys))
+		}
+		if len(r.held) < 3 && rng.Intn(3) == 0 {
+			r.held = append(r.held, r.begin(false, nil))
+		}
+		switch x := rng.Intn(10); {
+		case x < 7: // settle into a main table of L6
+			r.rotate()
+			r.flushOne()
+			r.compactOnce(0, 0, 6, "l0_move")
+			r.compactOnce(6, int(compact.IngestDrain), 0, "drain")
+		case x < 8: // leave it in the ingest buffer
+			r.rotate()
+			r.flushOne()
+			r.compactOnce(0, 0, 6, "l0_move")
+		case x < 9: // leave it in L0
+			r.rotate()
+			r.flushOne()
+		}
+		if ph >= 2 && rng.Intn(2) == 0 {
+			r.scan(nDB, nTxn, nil)
+		}
+	}
+	r.scan(nDB, nTxn, nil)
+}
+
 func (r *iterRun) program(steps, nDB, nTxn int) {
 	rng := r.rng
 	base := 6
@@ -877,6 +935,11 @@ var iterScripts = map[string][]string{
 	"main_boundary_plain": {"p a 1", "p b 2", "rot", "fl", "move", "drain", "p k 3", "p z\xff 4", "rot", "fl", "move", "drain", "scan"},
 	// the same for a transaction whose readTs is the stored version of that last key
 	"main_boundary_txn": {"c a=1 b=2", "holdro", "rot", "fl", "move", "drain", "c k=3 z\xff=4", "rot", "fl", "move", "drain", "scan"},
+	// a reader begun BEFORE the commit of b: its Seek(b) carries a version below every stored
+	// version of b, the last key of the first main table; k and z of the next table are visible
+	"old_reader_boundary": {"c k=1 z\xff=1", "holdro", "rot", "fl", "move", "drain", "c a=2 b=2", "rot", "fl", "move", "drain", "scan"},
+	// own writes over keys whose newest committed version is exactly readTs
+	"own_write_at_readts": {"c a=1 b=2 k=3", "hold a=9 b=- ab=7", "scan", "rot", "fl", "scan"},
 	// a committed empty value, read from a memtable and from a table
 	"empty_value": {"c a=~ b=1", "scan", "rot", "fl", "scan"},
 	// expiry
@@ -975,7 +1038,11 @@ func runEpisode(c *corr.Ctx, ep episode) {
 		r.script(iterScripts[ep.Script], ep.NDB, ep.NTxn)
 		c.Count("script_" + ep.Script)
 	} else {
-		r.program(ep.Steps, ep.NDB, ep.NTxn)
+		if ep.Profile == "ranges" {
+			r.programRanges(ep.Steps, ep.NDB, ep.NTxn)
+		} else {
+			r.program(ep.Steps, ep.NDB, ep.NTxn)
+		}
 		c.Count("profile_" + ep.Profile)
 	}
 	r.closeDB()
@@ -985,7 +1052,7 @@ func runIter(c *corr.Ctx) error {
 	installHooks()
 	c.Meta("run_module", "RunIter")
 	c.Meta("exhaustive", false)
-	c.Meta("rule", "states built on a real DB (background compaction paused, flushes gated) by random programs of transaction commits (1-3 keys; sets, deletes, expired and not yet expired entries, empty values), plain-API writes (default/lock/write column families), equal-version overwrites, memtable rotation, flushes, every compaction kind, reopen; 7 user keys incl. byte-prefix pairs and 0x00/0xFF; at checkpoints the layout is dumped with every record and DB.NewIterator, Txn.NewIterator, Txn.NewKeyIterator run under random option records (Reverse, AllVersions, KeyOnly, Prefix, SinceTs, LowerBound/UpperBound from keys and neighbours) with Rewind or Seek (targets = keys, neighbours, empty), half of them after a SEQUENCE of earlier positioning operations on the same iterator (Seek, preferably out of the bounds, / Rewind, each followed by 0-2 Next), plus fixed probes (forward Seek exactly onto every key, Rewind after a rejected Seek, Seek after Seek, Seek after Rewind+Next, forward and reverse), on a fresh read-only transaction, a fresh update transaction with pending writes and transactions begun earlier, plus Txn.Get of every key; the full (cf, key, version, value) listings are compared. scripted regression programs run first (incl. two main tables in one level after two ingest drains, with the DB iterator / a transaction whose readTs is the stored version seeking exactly onto the last key of the first table). non-trivial = the state has at least two sources and one record; distinct by Gallina term")
+	c.Meta("rule", "states built on a real DB (background compaction paused, flushes gated) by random programs of transaction commits (1-3 keys; sets, deletes, expired and not yet expired entries, empty values), plain-API writes (default/lock/write column families), equal-version overwrites, memtable rotation, flushes, every compaction kind, reopen; 7 user keys incl. byte-prefix pairs and 0x00/0xFF; at checkpoints the layout is dumped with every record and DB.NewIterator, Txn.NewIterator, Txn.NewKeyIterator run under random option records (Reverse, AllVersions, KeyOnly, Prefix, SinceTs, LowerBound/UpperBound from keys and neighbours) with Rewind or Seek (targets = keys, neighbours, empty), half of them after a SEQUENCE of earlier positioning operations on the same iterator (Seek, preferably out of the bounds, / Rewind, each followed by 0-2 Next), plus fixed probes (forward Seek exactly onto every key, Rewind after a rejected Seek, Seek after Seek, Seek after Rewind+Next, forward and reverse), on a fresh read-only transaction, a fresh update transaction with pending writes and transactions begun earlier, plus Txn.Get of every key; the full (cf, key, version, value) listings are compared. a `ranges` profile commits to one of three disjoint key ranges per phase and settles each into its own L6 main table (several main tables per level) while transactions begun earlier stay open (old read timestamps). scripted regression programs run first (incl. a reader older than every version of the last key of a main table, own writes over keys committed exactly at readTs, two main tables in one level after two ingest drains, with the DB iterator / a transaction whose readTs is the stored version seeking exactly onto the last key of the first table). non-trivial = the state has at least two sources and one record; distinct by Gallina term")
 	if c.Replay != "" {
 		cases, err := c.ReplayCases()
 		if err != nil {
@@ -1004,17 +1071,19 @@ func runIter(c *corr.Ctx) error {
 		}
 		return nil
 	}
-	nDB, nTxn := 6, 8
-	for _, name := range []string{"tombstone", "imm_tie", "reverse_versions", "db_cf", "db_plain", "db_rseek", "pending_prefix", "expired", "empty_value", "dup_copies", "main_boundary_plain", "main_boundary_txn"} {
+	nDB, nTxn := 6, 6
+	for _, name := range []string{"tombstone", "imm_tie", "reverse_versions", "db_cf", "db_plain", "db_rseek", "pending_prefix", "expired", "empty_value", "dup_copies", "main_boundary_plain", "main_boundary_txn", "old_reader_boundary", "own_write_at_readts"} {
 		runEpisode(c, episode{Seed: 7, Script: name, NDB: nDB, NTxn: nTxn})
 	}
 	n := c.Scale(8, 300)
 	for i := 0; i < n; i++ {
 		ep := episode{Seed: c.Rng.Int63(), Steps: 30 + c.Rng.Intn(30), NDB: nDB, NTxn: nTxn}
 		switch x := c.Rng.Intn(10); {
-		case x < 2:
+		case i == 0 || x < 2:
+			ep.Profile = "ranges"
+		case x < 4:
 			ep.Profile = "simple"
-		case x < 5:
+		case x < 6:
 			ep.Profile = "txn"
 		default:
 			ep.Profile = "mixed"
